@@ -64,6 +64,21 @@ func (p *parser) parsePatch(i int, c *section.Change) (*Patch, error) {
 	// FIXME: Hack: If one of minus and plus believes their side is an
 	// statement and the other believes it's an expression, make them both
 	// expresisons.
+	//
+	// Likewise, a var, const or type declaration on one side is a
+	// statement if the other side is a statement or an expression.
+	switch m := patch.Minus.Node.(type) {
+	case *pgo.GenDecl:
+		switch patch.Plus.Node.(type) {
+		case *pgo.StmtList, *pgo.Expr:
+			patch.Minus.Node = declStmtList(m)
+		}
+	case *pgo.StmtList, *pgo.Expr:
+		if p, ok := patch.Plus.Node.(*pgo.GenDecl); ok {
+			patch.Plus.Node = declStmtList(p)
+		}
+	}
+
 	switch m := patch.Minus.Node.(type) {
 	case *pgo.Expr:
 		if _, ok := patch.Plus.Node.(*pgo.StmtList); ok {
@@ -84,6 +99,16 @@ func (p *parser) parsePatch(i int, c *section.Change) (*Patch, error) {
 	}
 
 	return &patch, nil
+}
+
+// declStmtList turns a declaration at the top level of one side of a patch
+// into the statement that declares the same inside a function.
+func declStmtList(d *pgo.GenDecl) *pgo.StmtList {
+	return &pgo.StmtList{
+		List: []goast.Stmt{
+			&goast.DeclStmt{Decl: d.GenDecl},
+		},
+	}
 }
 
 // parses one version of the unified diff of a file.
